@@ -9,7 +9,7 @@ import ast
 import z3
 
 from . import spec as S
-from .spec import Opt, BoolV, RealV, SliceV, SeqV, TupV, MapV, StrV, NanV, ObjV
+from .spec import Opt, BoolV, RealV, SliceV, SeqV, TupV, MapV, StrV, NanV, ObjV, AbsV
 from . import engine as E
 
 I = E.I
@@ -66,6 +66,12 @@ def isinstance_(ex, v, names):
                 bases = ex.c.fields.get("__bases__", {}).get(v.cls, [v.cls])
                 if n in bases or n == v.cls:
                     return z3.BoolVal(True)
+                if n in ex.c.fields.get("__maybe__", {}).get(v.cls, []):
+                    # the dynamic class of an abstract record may or may not be n: a stable unknown
+                    key = f"__isinstance_{n}"
+                    if key not in v.fields:
+                        v.fields[key] = BoolV(ex.fresh_bool(f"{getattr(v, 'base', v.cls)}.is_{n}"))
+                    res = z3.Or(res, v.fields[key].t)
             elif isinstance(v, (Opt, BoolV, SliceV, TupV, SeqV, MapV, StrV, RealV, NanV)):
                 continue
             else:
@@ -457,10 +463,12 @@ def method(ex, base, attr, args, st, node):
     if isinstance(base, TupV) and attr == "copy":
         return TupV(list(base.items), base.kind)
     if isinstance(base, ObjV):
-        key = f"{base.cls}.{attr}"
-        m = ex.c.fields.get("__methods__", {}).get(key)
+        ms = getattr(ex.c.cls, "methods", None) or {}
+        m = ms.get(f"{base.cls}.{attr}") or ms.get(attr)
         if m is not None:
-            return m(ex, st, base, args, node)
+            kwargs = {k.arg: ex.eval(k.value, st) for k in node.keywords}
+            ex.assumed.add(f"{base.cls}.{attr}: {(m.__doc__ or '').strip()}")
+            return E.wrap_any(m(ex, st, base, args, kwargs, node))
     raise E.Unsupported(f"method .{attr} on {base!r} line {node.lineno}")
 
 
